@@ -70,7 +70,14 @@ Addr1 == {Addr(A1), PV("owner", "Address"), Un("c_script_address", Hash28)}
 Datum1 == {None, Struct(1, <<PV("n", "Int"), PV("b", "Bytes")>>), SrcDatum,
            Struct(0, <<Bin("property", SrcDatum, N(0)), Bin("concat", B(<<9>>), PV("b", "Bytes"))>>),
            [k |-> "list", items |-> <<N(1), PV("n", "Int")>>],
-           [k |-> "map", pairs |-> <<[a |-> N(1), b |-> PV("b", "Bytes")]>>]}
+           [k |-> "map", pairs |-> <<[a |-> N(1), b |-> PV("b", "Bytes")]>>],
+           \* projections of a literal container some of whose members are not known yet: a map whose earlier key is
+           \* pending and will turn out equal to the key looked up (the argument i is 1), a list and a struct whose
+           \* other members are pending
+           Bin("property", [k |-> "map", pairs |-> <<[a |-> PV("i", "Int"), b |-> B(<<1>>)], [a |-> N(1), b |-> B(<<2>>)]>>], N(1)),
+           Bin("property", [k |-> "map", pairs |-> <<[a |-> N(7), b |-> B(<<1>>)], [a |-> PV("i", "Int"), b |-> B(<<2>>)], [a |-> N(1), b |-> B(<<3>>)]>>], N(1)),
+           Bin("property", [k |-> "list", items |-> <<PV("n", "Int"), N(7)>>], N(1)),
+           Bin("property", Struct(0, <<PV("b", "Bytes"), N(9)>>), PV("i", "Int"))}
 
 \* ---- template skeleton ---------------------------------------------------------
 EmptyTx == [fees |-> Fees, references |-> <<>>, inputs |-> <<>>, outputs |-> <<>>,
